@@ -247,6 +247,22 @@ class SymTensor:
 
     def __setitem__(self, idx, val):
         v = A(val)
+        if isinstance(idx, SymTensor):
+            # x[cond] = v with symbolic conditions: element-wise choice (decided conditions are resolved, the others fork)
+            cond = idx.a
+            if cond.shape != self.a.shape:
+                raise Unsupported("masked assignment with a mask of a different shape")
+            vv = to_S(v) if not isinstance(v, np.ndarray) else None
+            if vv is None:
+                raise Unsupported("masked assignment of an array value")
+            for pos in np.ndindex(*cond.shape):
+                c = cond[pos]
+                take = core.resolve_B(c) if isinstance(c, B) else bool(c)
+                if take is None:
+                    take = bool(c)                  # forks the exploration
+                if take:
+                    self.a[pos] = vv
+            return
         self.a[self._ix(idx)] = _obj(v) if isinstance(v, np.ndarray) else to_S(v)
 
     # ---- arithmetic
